@@ -43,3 +43,16 @@ package api
 //@   theory numerals
 //@   ensures result == alldigits(s)
 //@   loop#1 invariant 0 <= i && i <= len(s) && (forall qj_ int :: 0 <= qj_ && qj_ < i ==> sbyteAt(s, qj_) >= 48 && sbyteAt(s, qj_) <= 57)
+
+// ---- C15: formatting.  For every amount m in [0, MaxAmount] the result is the shortest plain decimal of m / 10^8:
+// integral digits without a leading zero (a single "0" allowed), then, only when the fraction is not zero, a point
+// and the fraction digits without trailing zeros; its value is exactly m.  Out-of-range amounts are refused.
+//@ func AmountToString
+//@   props C15 C19
+//@   theory numerals
+// AddUint and Atoi cannot fail for an amount in range: two defensive returns
+//@   dead returns 2
+//@   ensures[C15] (err == nil) == (m >= 0 && mathint(m) <= maxAmt())
+//@   at "return sInt + \".\" + sFrac, nil" assert[C15] alldigits(sInt) && len(sInt) >= 1 && (len(sInt) > 1 ==> sbyteAt(sInt, 0) != 48) && alldigits(sFrac) && len(sFrac) >= 1 && len(sFrac) <= 8 && sbyteAt(sFrac, len(sFrac) - 1) != 48
+//@   at "return sInt + \".\" + sFrac, nil" assert[C15] decval(sInt) * 100000000 + decval(sFrac) * pow10(8 - len(sFrac)) == mathint(m)
+//@   at "return sInt, nil" assert[C15] alldigits(sInt) && len(sInt) >= 1 && (len(sInt) > 1 ==> sbyteAt(sInt, 0) != 48) && decval(sInt) * 100000000 == mathint(m)
